@@ -24,6 +24,9 @@
 #include <time.h>
 #include <unistd.h>
 #include <utmp.h>
+#include <utmpx.h>
+#include <sys/utsname.h>
+#include <termios.h>
 
 #define REAL(name) ({ static __typeof__(&name) fp; if (!fp) { t_in_sim++; fp = (__typeof__(&name))dlsym(RTLD_NEXT, #name); t_in_sim--; } fp; })
 #define RAW(...) raw_syscall6(__VA_ARGS__)
@@ -347,6 +350,36 @@ char *getcwd(char *buf, size_t size) {
     if (!sim_active()) return REAL(getcwd)(buf, size);
     return sim_getcwd(buf, size);
 }
+int uname(struct utsname *u) {
+    if (!sim_active()) return REAL(uname)(u);
+    SimScope s; sim_step(); sim_event("uname");
+    struct utsname t; memset(&t, 0, sizeof t);
+    strcpy(t.sysname, "Linux"); strncpy(t.nodename, G.w.hostname.c_str(), sizeof t.nodename - 1); strcpy(t.release, "6.1.0-sim"); strcpy(t.version, "#1 SMP"); strcpy(t.machine, "x86_64"); strcpy(t.domainname, "(none)");
+    sut_write(u, &t, sizeof t);
+    return 0;
+}
+// the magic links of /proc that name the state the data sources report
+ssize_t readlink(const char *path, char *buf, size_t len) {
+    if (!sim_active()) return rawret(RAW(SYS_readlink, (long)path, (long)buf, (long)len, 0, 0, 0));
+    SimScope s; sim_step(); Ev &e = sim_event("readlink", path ? path : "");
+    std::string p = path ? path : "", self = "/proc/" + std::to_string(G.w.pid), target; int err = 0;
+    if (p.compare(0, self.size() + 1, self + "/") == 0) p = "/proc/self/" + p.substr(self.size() + 1);
+    if (p == "/proc/self/cwd") { if (G.w.cwd_errno) target = G.w.cwd + " (deleted)"; else target = G.w.cwd; }
+    else if (p == "/proc/self/fd/0") { if (G.w.tty_state == 2) target = G.w.tty_path; else if (G.w.tty_state == 0) target = "pipe:[4242]"; else err = ENOENT; }
+    else if (p == "/proc/self/exe") target = "/usr/bin/simulated-caller";
+    else err = G.w.files.count(p) ? EINVAL : ENOENT;
+    if (err) { errno = err; e.ret = -1; e.err = err; return -1; }
+    size_t n = target.size() < len ? target.size() : len;
+    sut_write(buf, target.data(), n);
+    return (ssize_t)n;
+}
+pid_t tcgetsid(int fd) {
+    if (!sim_active()) return REAL(tcgetsid)(fd);
+    SimScope s; sim_step(); sim_event("tcgetsid");
+    if (fd != 0 || G.w.tty_state != 2) { errno = G.w.tty_state == 1 || fd != 0 ? EBADF : ENOTTY; return -1; }
+    if (!G.w.has_ctty) { errno = ENOTTY; return -1; }
+    return (pid_t)G.w.sid;
+}
 // glibc: $PWD verbatim when it names the same directory as ".", otherwise what the kernel says
 char *get_current_dir_name(void) {
     if (!sim_active()) return REAL(get_current_dir_name)();
@@ -398,8 +431,37 @@ static __thread size_t t_ut_cursor;
 void setutent(void) { if (!sim_active()) { REAL(setutent)(); return; } SimScope s; sim_step(); sim_event("setutent"); t_ut_cursor = 0; }
 void endutent(void) { if (!sim_active()) { REAL(endutent)(); return; } SimScope s; sim_step(); sim_event("endutent"); t_ut_cursor = 0; }
 int utmpname(const char *f) { if (!sim_active()) return REAL(utmpname)(f); SimScope s; sim_step(); sim_event("utmpname", f ? f : ""); return 0; }
+static int sim_getutline_r(const struct utmp *line, struct utmp *buf, struct utmp **res);
 int getutline_r(const struct utmp *line, struct utmp *buf, struct utmp **res) {
     if (!sim_active()) return REAL(getutline_r)(line, buf, res);
+    return sim_getutline_r(line, buf, res);
+}
+// the non-reentrant and the utmpx spellings of the same lookup (struct utmpx has the layout of struct utmp on Linux)
+struct utmp *getutline(const struct utmp *line) {
+    if (!sim_active()) return REAL(getutline)(line);
+    static struct utmp b; struct utmp *r = nullptr; return sim_getutline_r(line, &b, &r) == 0 ? r : nullptr;   // one buffer for all threads, as in glibc
+}
+void setutxent(void) { if (!sim_active()) { REAL(setutxent)(); return; } SimScope s; sim_step(); sim_event("setutent"); t_ut_cursor = 0; }
+void endutxent(void) { if (!sim_active()) { REAL(endutxent)(); return; } SimScope s; sim_step(); sim_event("endutent"); t_ut_cursor = 0; }
+struct utmpx *getutxline(const struct utmpx *line) {
+    if (!sim_active()) return REAL(getutxline)(line);
+    static struct utmp b; struct utmp *r = nullptr; return sim_getutline_r((const struct utmp *)line, &b, &r) == 0 ? (struct utmpx *)r : nullptr;
+}
+static int sim_getutent_r(struct utmp *buf, struct utmp **res) {
+    SimScope s; sim_step(); Ev &e = sim_event("getutent_r");
+    if (t_ut_cursor < G.w.utmp.size()) {
+        const UtmpEnt &u = G.w.utmp[t_ut_cursor++];
+        struct utmp t; memset(&t, 0, sizeof t); t.ut_type = USER_PROCESS; t.ut_pid = G.w.sid;
+        strncpy(t.ut_line, u.line.c_str(), UT_LINESIZE); strncpy(t.ut_user, u.user.c_str(), UT_NAMESIZE);
+        for (int k = 0; k < 4; k++) t.ut_addr_v6[k] = (int32_t)u.addr[k];
+        sut_write(buf, &t, sizeof t); *res = buf; return 0;
+    }
+    *res = nullptr; errno = ESRCH; e.ret = -1; e.err = ESRCH; return -1;
+}
+int getutent_r(struct utmp *buf, struct utmp **res) { if (!sim_active()) return REAL(getutent_r)(buf, res); return sim_getutent_r(buf, res); }
+struct utmp *getutent(void) { if (!sim_active()) return REAL(getutent)(); static struct utmp b; struct utmp *r = nullptr; return sim_getutent_r(&b, &r) == 0 ? r : nullptr; }
+struct utmpx *getutxent(void) { if (!sim_active()) return REAL(getutxent)(); static struct utmp b; struct utmp *r = nullptr; return sim_getutent_r(&b, &r) == 0 ? (struct utmpx *)r : nullptr; }
+static int sim_getutline_r(const struct utmp *line, struct utmp *buf, struct utmp **res) {
     SimScope s; sim_step();
     Fault f; bool faulted = sim_fault("getutline_r", f);
     Ev &e = sim_event("getutline_r", std::string(line->ut_line, strnlen(line->ut_line, UT_LINESIZE)));
@@ -407,10 +469,11 @@ int getutline_r(const struct utmp *line, struct utmp *buf, struct utmp **res) {
     for (; t_ut_cursor < G.w.utmp.size(); t_ut_cursor++) {
         const UtmpEnt &u = G.w.utmp[t_ut_cursor];
         if (strncmp(u.line.c_str(), line->ut_line, UT_LINESIZE) == 0) {
-            memset(buf, 0, sizeof *buf);
-            buf->ut_type = USER_PROCESS; buf->ut_pid = G.w.sid;
-            strncpy(buf->ut_line, u.line.c_str(), UT_LINESIZE); strncpy(buf->ut_user, u.user.c_str(), UT_NAMESIZE);
-            for (int k = 0; k < 4; k++) buf->ut_addr_v6[k] = (int32_t)u.addr[k];
+            struct utmp t; memset(&t, 0, sizeof t);
+            t.ut_type = USER_PROCESS; t.ut_pid = G.w.sid;
+            strncpy(t.ut_line, u.line.c_str(), UT_LINESIZE); strncpy(t.ut_user, u.user.c_str(), UT_NAMESIZE);
+            for (int k = 0; k < 4; k++) t.ut_addr_v6[k] = (int32_t)u.addr[k];
+            sut_write(buf, &t, sizeof t);
             *res = buf; t_ut_cursor++; return 0;
         }
     }
